@@ -25,7 +25,7 @@ ADT = 'state::packed::PackedState'
 PI = Fraction(math.pi)
 
 
-def run(ctx):
+def _run_rules(ctx):
     rep, f = ctx.rep, ctx.facts
     rep.trust('pk/sym.py, pk/poly.py, pk/loops.py lifting; tuple_combinations yields each unordered pair once (itertools)')
     rep.assume('real-number semantics; radial polygon radii are non-negative; NOT DECIDED: the disc-union area is exact only when '
@@ -420,3 +420,14 @@ def _discs(ctx):
               'd < r1+r2: r1^2 acos(d1/r1) - d1 sqrt(r1^2-d1^2) + (1<->2), d1 = (d^2+r1^2-r2^2)/2d; else 0',
               'circle_overlap is not the two-segment lens formula guarded by d < r1 + r2: %s' % whyl)
     rep.sample('disc union: sum(pi r^2) - sum over unordered pairs of the lens area (exact only without triple overlaps)')
+
+
+def run(ctx):
+    _run_rules(ctx)
+    from .common import import_obligations
+    # a packing fraction in (0, 1] presupposes that a scored state has no overlaps: the structural clauses of C01 (R1, R3-R6)
+    import_obligations(ctx, 'C01', 'NOOVERLAP', only_rules={'R1', 'R3', 'R4', 'R5', 'R6'}, floor=10)
+    # the trimer whose area is taken is the trimer that was asked for (C12.R7: the two constructors build one geometry)
+    import_obligations(ctx, 'C12', 'SHAPE', only_rules={'R7'}, floor=0)
+
+
